@@ -31,5 +31,5 @@ SPEC = {
         "weekends file read is atomic (the source concedes a short creation race)",
     ],
     "trusted_base": [],
-    "own_objects": ["theories/Props/C09.vo", "theories/Proofs/SpanFacts.vo", "theories/Model/Span.vo"],
+    "own_objects": ["theories/Props/C09.vo", "theories/Proofs/SpanFacts.vo", "theories/Proofs/SpanShare.vo", "theories/Model/Span.vo"],
 }
